@@ -171,6 +171,7 @@ def install(s):
     # the call handler must not advance ip after a throw: wrap
     def cxa_throw2(e, st, a, ins):
         st.exc = (a[0], a[1])
+        if e.cfg.get('note_throws'): st.notes = st.notes + ['throw ' + e.exc_message(st, a[0], a[1]) + ' in ' + e.where(st)[0][-40:]]
         e.unwind(st)
         raise Redirect()
     class Redirect(Exception): pass
